@@ -1,5 +1,5 @@
 """C08 -- propagation stops only at a common fixpoint and only ever shrinks domains (structural clauses)."""
-from ..rules import branching, engine, model, optimize, propagators, search
+from ..rules import branching, engine, model, optimize, propagators, search, shaving
 
 EXPLANATION = (
     "Static analysis of the fixpoint protocol: (i) wake-up sufficiency by bound-dependency analysis of every registered filtering function against the per-position mask derived from its trigger function (sign-split on coefficients, self-dependences and entailment guards excluded, ground-guarded reads counted as GROUND); 16 propagators watch MIN|MAX everywhere, 5 narrow ones are analysed; (ii) every write-back store announced with the exact bits; (iii) strict-tightening stores and emptiness test (domains only shrink, non-empty on 'consistent'); (iv) the wake-up table joins events; (v) a pass ends only when no enabled constraint is flagged. Does not decide that the fixpoint is the largest one. Also: the wake-up primitive (full scan, no clearing, skip only if disabled or not watching); only pop_propagator clears a queue flag; a restart (reset) and a new solver leave every constraint queued; decisions announce the bounds they move; the event constants are distinct bits and the combined masks their unions."
@@ -20,3 +20,5 @@ def check(ctx, prog):
     branching.check_value_heuristics(ctx, prog)  # scope: R-BRANCH-EVENTS only
     engine.rule_queue_writers(ctx, prog, thorough=ctx.tier == "thorough")
     search.rule_solve_one(ctx, prog, want=("R-HANDOVER",))
+    shaving.rule_shave_bound(ctx, prog)  # scope: the un-probing re-queues the watchers of the bound it removed
+    shaving.rule_shaving_loop(ctx, prog)  # scope: what shaving hands back is a propagated state with the status of its last pass
